@@ -551,11 +551,28 @@ pub fn run_c18(rep: &mut Report, rng: &mut Rng, thorough: bool) {
                 };
                 let mut o2 = lz.clone();
                 o2.preset = None;
+                let mut fail_at: Option<usize> = None;
                 let res = guard(|| {
                     let mut w = LZMAWriter::new_use_header(Vec::new(), &o2.to_opts(), Some(declared))?;
-                    write_parts(&mut w, &data, &parts, 0)?;
+                    let mut off = 0;
+                    for (k, &n) in parts.iter().enumerate() {
+                        let n = n.min(data.len() - off);
+                        if let Err(e) = w.write_all(&data[off..off + n]) {
+                            fail_at = Some(k);
+                            return Err(e);
+                        }
+                        off += n;
+                    }
                     w.finish()
                 });
+                if parts.len() <= 5000 && parts.iter().sum::<usize>() == data.len() {
+                    let exp = match (&res, fail_at) {
+                        (Outcome::Ok(c), _) => format!("ok {}", u64::from_le_bytes(c[5..13].try_into().unwrap())),
+                        (_, Some(k)) => format!("errwrite {k}"),
+                        _ => "errfinish".to_string(),
+                    };
+                    rep.model(format!("lzma.expected exp={declared} parts={}", nats(&parts)), exp);
+                }
                 let d = json!({"writer": ".lzma expected size", "declared": declared, "written": data.len(), "partition": pstyle, "case": i});
                 match (&res, declared == data.len() as u64) {
                     (Outcome::Ok(c), true) => {
